@@ -1287,8 +1287,11 @@ def tbl17_constant_translation_is_inverse(ctx):
                                r'checked_sub|checked_add|saturating_sub|saturating_add|mul_add|rem_euclid|div_euclid)$', f)
                 if mm:
                     arith.append((mm.group(1), t, t.args[0] if t.args else '', t.args[1] if len(t.args) > 1 else ''))
-        subs = [a for a in arith if a[0] in ('Sub', 'wrapping_sub', 'checked_sub')]
-        others = [a for a in arith if a[0] not in ('Sub', 'wrapping_sub', 'checked_sub')]
+        # a saturating difference is a subtraction as well: a constant beyond the representable range
+        # compares like the nearest representable one, for every comparison operator
+        SUBS = ('Sub', 'wrapping_sub', 'checked_sub', 'saturating_sub')
+        subs = [a for a in arith if a[0] in SUBS]
+        others = [a for a in arith if a[0] not in SUBS]
         # index arithmetic of `self.ops[0]` (bounds checks) is Lt/len, not in the list above
         ok = len(subs) == 1 and not others
         detail = 'arithmetic in the body: %s' % [a[0] for a in arith]
@@ -1304,6 +1307,13 @@ def tbl17_constant_translation_is_inverse(ctx):
                 xparam in xa, y_from_op)
         site = (subs[0][1] if subs else (others[0][1] if others else F.blocks[0].term))
         ctx.check('TBL-17', 'Codec::%s|offset-subtracted-once' % name, ok, detail, where_(site))
+        if name == 'encode_int' and subs:
+            plain = subs[0][0] == 'Sub'
+            ctx.check('TBL-17', 'Codec::encode_int|difference-cannot-overflow', not plain,
+                      'constant - offset is %s' % ('a plain i64 subtraction: a constant near the i64 edge against a '
+                                                   'large offset overflows (worker panics in debug builds, wrong '
+                                                   'constant in release builds)' if plain else
+                                                   'computed with %s' % subs[0][0]), where_(subs[0][1]))
 
 
 def where_(x):
